@@ -253,7 +253,7 @@ func c11Gen(r *Rng, i int, tier string) any {
 	in.Threads = r.Intn(6)
 	in.Delays = fsDelays{Seed: r.U64(), Profile: []int{0, 1, 2, 3, 5}[r.Intn(5)]}
 	if in.Kind == "cursor" {
-		in.Fault = c11Fault{Type: "download"}
+		in.Fault = c11Fault{Type: "download", File: r.Intn(2), K: r.Intn(3)}
 		return in
 	}
 	sites := c11Sites(&in.Layout)
@@ -473,14 +473,30 @@ func c11Exec(raw json.RawMessage) (*Case, error) {
 			fb.LibNum = a.Num
 			forked := dstore.NewMockStore(nil)
 			forked.SetFile(bstream.BlockFileNameWithSuffix(fb, "verif"), fsBundleBytes([]fsBlk{fork}))
-			forked.OpenObjectFunc = func(ctx context.Context, name string) (io.ReadCloser, error) {
-				return nil, errInjOpen
+			wantClass = 5
+			switch in.Fault.K % 3 {
+			case 0: // the download of the one-block file fails
+				forked.OpenObjectFunc = func(ctx context.Context, name string) (io.ReadCloser, error) {
+					return nil, errInjOpen
+				}
+			case 1: // listing the forked-blocks store fails
+				forked.WalkFunc = func(ctx context.Context, prefix string, f func(filename string) error) error {
+					return errInjOpen
+				}
+			default: // the one-block file is damaged (bad dbin header)
+				forked.SetFile(bstream.BlockFileNameWithSuffix(fb, "verif"), []byte("xbin-damaged-one-block-file"))
+				wantClass = 3
 			}
 			cur := &bstream.Cursor{Step: bstream.StepNew, Block: bstream.NewBlockRef(fsIDStr(fork.ID), fork.Num),
 				HeadBlock: bstream.NewBlockRef(fsIDStr(fork.ID), fork.Num), LIB: bstream.NewBlockRef(fsIDStr(a.ID), a.Num)}
-			src = bstream.NewFileSourceFromCursor(st, forked, cur, rec, zap.NewNop(), opts...)
+			if in.Fault.File%2 == 1 {
+				// through the joining source: FileSourceFactory.SourceFromCursor
+				ff := bstream.NewFileSourceFactory(st, forked, zap.NewNop(), opts...)
+				src = bstream.NewJoiningSource(ff, nilLiveFactory{}, rec, l.Start, cur, false, zap.NewNop())
+			} else {
+				src = bstream.NewFileSourceFromCursor(st, forked, cur, rec, zap.NewNop(), opts...)
+			}
 			coqFault = "(FHandler 0)"
-			wantClass = 5
 		}
 
 		return runWatched(src, rec, quiet, 2*time.Second)
@@ -493,6 +509,9 @@ func c11Exec(raw json.RawMessage) (*Case, error) {
 	ft := f.Type
 	if dmgNote != "" {
 		ft += "-" + dmgNote
+	}
+	if f.Type == "download" {
+		ft += []string{"-open", "-walk", "-damaged"}[f.K%3] + []string{"", "-joining"}[f.File%2]
 	}
 	if f.CloseDelayUs > 0 {
 		ft += "-slowclose"
@@ -535,6 +554,8 @@ func c11Corpus() []any {
 		c11Input{Kind: "file", Layout: two, Threads: 4, Fault: c11Fault{Type: "pre", File: 1, K: 0}},
 		c11Input{Kind: "file", Layout: two, Threads: 4, Fault: c11Fault{Type: "handler", K: 3}},
 		c11Input{Kind: "cursor", Layout: two, Threads: 2, Fault: c11Fault{Type: "download"}},
+		c11Input{Kind: "cursor", Layout: two, Threads: 2, Fault: c11Fault{Type: "download", File: 1, K: 1}},
+		c11Input{Kind: "cursor", Layout: two, Threads: 0, Fault: c11Fault{Type: "download", File: 1, K: 2}},
 		c11Input{Kind: "stream", Layout: fsLayout{Bundle: 100, Start: 3, Stop: 104, Files: [][]fsBlk{chain(1, 99), chain(100, 140)}}, Threads: 2, Fault: c11Fault{Type: "open", File: 1}},
 	}
 }
